@@ -127,6 +127,16 @@ def check_state(C, ents, created):
                 continue
             if [str(x) for x in full] != strs:
                 bad(f"as_sid-false-is-not-the-strings/{fn}", [s, strs[:4]], [str(x) for x in full][:4])
+            # other spellings of the same calls: the flag passed positionally, the search handed over as a Sid object
+            try:
+                alt = {"find(s,False)": list(f.find(s, False)) == strs, "find_one(s,False)": f.find_one(s, False) == one_s,
+                       "find(s,True)": [x.uri for x in f.find(s, True)] == [x.uri for x in full],
+                       "find(Sid(s))": [x.uri for x in f.find(Sid(s))] == [x.uri for x in full], "exists(Sid(s))": f.exists(Sid(s)) == ex}
+            except Exception as e:  # noqa
+                alt = {f"raises-{type(e).__name__}": False}
+            for k, ok in alt.items():
+                if not ok:
+                    bad(f"same-call-other-spelling-differs/{k}/{fn}", [s], "same answer")
             if ex != bool(full):
                 bad(f"exists-differs-from-find/{fn}", [s, ex], bool(full))
             if full:
